@@ -24,6 +24,8 @@ HOOKS = [
      'emit': 'gh_pc_calls += 1; gh_pc_pair = pair; gh_pc_nominate = nominate;'},
     {'id': 'writeStun_called', 'fn': 'QXmppIceComponentPrivate_writeStun', 'before': r'^\s*qstr messagePassword = ',
      'emit': 'gh_ws_calls += 1; gh_ws_type = message->m_type; gh_ws_id = message->m_id; gh_ws_transport = transport; gh_ws_port = port; gh_ws_xport = message->xorMappedPort; gh_ws_address = address;'},
+    {'id': 'request_for_pair', 'fn': 'QXmppIceComponent_handleDatagram', 'before': r'^\s*switch \(\(\(int\)CandidatePair_state\(pair_2\)\)\)',
+     'emit': 'gh_req_pair = pair_2;'},
     {'id': 'response_to_pair', 'fn': 'QXmppIceComponent_handleDatagram', 'before': r'QXmppStunTransaction_readStun\(pair_2->transaction, &message\)',
      'emit': 'gh_rs_pair = pair_2; gh_rs_pair_tx = pair_2->transaction; gh_rs_pair_src_ok = (IceHostAddress_eq(remoteHost, &pair_2->remote.host) && remotePort == pair_2->remote.port);'},
 ]
@@ -157,7 +159,7 @@ void h_transactionFinished(void) { gh_sender = nondet_transaction_ptr(); gh_loca
 '''
     f = b.write('transactionFinished.c', c)
     p = Proof('transactionFinished', f, 'h_transactionFinished', enforce='QXmppIceComponent_transactionFinished',
-              replace=['QXmppStunTransaction_response', 'candidatePriority', 'computeFoundation', 'QXmppIceTransport_localCandidate',
+              replace=['QXmppStunTransaction_response', 'candidatePriority', 'CandidatePair_priority', 'computeFoundation', 'QXmppIceTransport_localCandidate',
                        'QXmppIceComponent_updateGatheringState'], expect_loops=1, include_dirs=inc, timeout=900,
               note='every stored response, every component state (lists of any length, one arbitrary witness pair / local candidate); loop closed by loop contract')
     proofs.append(labelled(p, 'QXmppIceComponent_transactionFinished', sp_tf))
@@ -184,10 +186,13 @@ void h_writeStun(void) { QXmppIceComponentPrivate *d; const QXmppStunMessage *m;
     return {
         'proofs': proofs, 'functions': b.functions, 'dropped': b.dropped, 'fired': b.fired, 'hooks': [h['id'] + ': ' + h['emit'] for h in HOOKS],
         'assumed': [
-            'decode (verified in C14, used here by contract over the opaque datagram value): accepted AND the attribute loop met MESSAGE-INTEGRITY AND key non-empty ==> the attribute equals HMAC-SHA1(key, protected prefix); decode may accept a message WITHOUT the attribute under any key',
-            'decode, ASSUMED in addition (not among C14 postconditions): an accepted message carries the header type and transaction id of the datagram (m_type, m_id)',
-            'peekType (verified in C14): a non-zero result is the header type field; cookie and id are the header fields',
-            'QXmppStunTransaction::request(): id of the stored request is a function of the transaction object; QXmppStunTransaction::readStun runs QXmppIceComponent::transactionFinished synchronously, which may change the pair owning the transaction (state, nominated, reflexive, transaction), localCandidates, stunTransactions, gatheringState -- over-approximated as any value (units/C15/callees.h)',
+            'QXmppStunMessage::decode is NOT verified here: handleDatagram uses it through the contract that unit C14 proves on the real decode, by name '
+            'C14/QXmppStunMessage_decode/post.accepted_under_a_key_only_with_a_verified_integrity_attribute (accepted under a non-empty key ==> the attribute loop met MESSAGE-INTEGRITY), '
+            'post.integrity_hmac_called_with_key_over_protected_prefix + post.integrity_hmac_text_is_prefix_with_patched_length + post.integrity_attribute_equals_hmac (that attribute equals HMAC-SHA1(key, protected prefix)), '
+            'post.accepted_message_carries_the_header_type_cookie_and_transaction_id (m_type, m_id are the header fields); abstracted over an opaque datagram value in units/C15/callees.h. '
+            'A change inside decode (e.g. the FINGERPRINT branch returning true without MESSAGE-INTEGRITY) is therefore caught by `verif check C14`, not by C15',
+            'peekType: by the contract proved in C14 (C14/QXmppStunMessage_peekType/post.type_cookie_id_are_header_fields): a non-zero result is the header type field; cookie and id are the header fields',
+            'QXmppStunTransaction::request(): id of the stored request is a function of the transaction object; QXmppStunTransaction::readStun runs QXmppIceComponent::transactionFinished synchronously, which may change the pair owning the transaction (state, nominated, reflexive, transaction), localCandidates, stunTransactions, gatheringState -- over-approximated as any value (units/C15/callees.h); that it leaves activePair / connected() / the timer alone is transactionFinished/post.selecting_the_nominated_pair_and_signalling_connected_are_left_to_handleDatagram_which_runs_this_slot_through_readStun',
             'new QXmppStunTransaction(request, receiver): a fresh opaque transaction whose request id is the id of the given message (sending / retransmission timers are Qt + QXmppStunTransaction, not covered)',
             'QXmppIceTransport::localCandidate / writeDatagram (pure virtual): event-log contracts; QXmppStunMessage::encode (verified in C14): event-log contract',
             'QXmppJingleCandidate getters / setters read / write the members of QXmppJingleCandidatePrivate (struct generated from that class); default constructor as in QXmppJingleCandidatePrivate()',
@@ -215,6 +220,7 @@ void h_writeStun(void) { QXmppIceComponentPrivate *d; const QXmppStunMessage *m;
 # from a failed obligation to a native run against the real library (DESIGN 3.3 / 3.4)
 CONTROLS = [['ice', 'wrong'], ['ice', 'remotekey']]   # traffic a correct component must ignore (wrong key; well-formed request under the remote password)
 FINDINGS = [['decode'], ['ice', 'none'], ['ice', 'type']]
+HONEST = [['ice', 'latenominate'], ['ice', 'honest']]   # what an honest peer must achieve: exit 0 expected (1 / 3 = the component did not connect)
 
 
 _memo = {}
@@ -226,20 +232,21 @@ def _drive(variants):
     for args in variants:
         rc, out = native.run_driver(os.path.join(HERE, 'replay_ice.cpp'), args, timeout=90)
         outs.append(out.strip())
-        reacted = reacted or rc == 1
+        reacted = reacted or rc in (1, 3)
     return reacted, '\n'.join(outs)
 
 
 def find_input(unit, proof, ob, label, work):
     """a failed gate obligation of handleDatagram outside the recorded discriminators: does the real component react to traffic
     protected with a wrong key / a request protected with the remote password?"""
-    if not proof.id.startswith('handleDatagram') and proof.id != 'writeStun':
+    if not proof.id.startswith('handleDatagram') and proof.id not in ('writeStun', 'transactionFinished', 'performCheck'):
         return None
     if 'controls' not in _memo:      # one native run per check, whatever the number of failed obligations
-        _memo['controls'] = _drive(CONTROLS)
+        _memo['controls'] = _drive(CONTROLS + HONEST)
     reacted, out = _memo['controls']
-    return {'inputs': {'driver': 'units/C15/replay_ice.cpp', 'variants': CONTROLS,
-                       'meaning': 'loopback UDP: forged binding request with USE-CANDIDATE, then a forged success response to the triggered check'},
+    return {'inputs': {'driver': 'units/C15/replay_ice.cpp', 'variants': CONTROLS + HONEST,
+                       'meaning': 'loopback UDP against a real component: (controls) forged request with USE-CANDIDATE + forged success response must be ignored; '
+                                  '(honest) a peer that knows both passwords, nominating after the check succeeded, must get connected() exactly once'},
             'native_output': out, 'reproduced': reacted}
 
 
